@@ -8,6 +8,7 @@ import (
 	"math/big"
 
 	"gitlab.com/yawning/secp256k1-voi/secec"
+	"gitlab.com/yawning/secp256k1-voi/secec/bitcoin"
 
 	"verifharness/gen"
 	"verifharness/mon"
@@ -19,7 +20,7 @@ func init() { Register("C08", runC08) }
 func runC08(r *mon.Run) {
 	for _, c := range []string{"c08:Ry-even,s-kept", "c08:Ry-even,s-negated", "c08:Ry-odd,s-kept", "c08:Ry-odd,s-negated", "c08:rand:scripted", "c08:rand:rfc6979", "c08:rand:nil",
 		"c08:enc:asn1", "c08:enc:compact", "c08:enc:recoverable", "c08:selfverify", "c08:err:digest-length", "c08:err:short-digest", "c08:err:bad-encoding", "c08:nil-opts-long-digest",
-		"c08:pub-y-odd", "c08:pub-y-even"} {
+		"c08:pub-y-odd", "c08:pub-y-even", "c08:key-used-before-signing"} {
 		r.Require(c)
 	}
 	halfN := oracle.HalfN
@@ -55,6 +56,22 @@ func runC08(r *mon.Run) {
 			w.Sample(map[string]any{"op": "SignRaw/Sign", "d": hb(d), "digest": hx(dig), "rand_mode": []string{"scripted", "scripted", "rfc6979", "nil"}[mode]})
 		}
 
+		if i%3 == 0 {
+			// the key has a life before it signs: a BIP-340 key is derived from it, and the
+			// caller overwrites / reuses everything the key handed out
+			_ = bitcoin.NewSchnorrPrivateKeyFromECDSA(priv)
+			_ = bitcoin.NewSchnorrPublicKeyFromECDSA(priv.PublicKey())
+			hs := priv.Scalar()
+			hs.Negate(hs)
+			hp := priv.PublicKey().Point()
+			hp.Negate(hp)
+			for _, b := range [][]byte{priv.Bytes(), priv.PublicKey().Bytes(), priv.PublicKey().CompressedBytes()} {
+				for j := range b {
+					b[j] ^= 0x3c
+				}
+			}
+			w.Class("c08:key-used-before-signing")
+		}
 		lr, ls, v, err := priv.SignRaw(mkRand(), dig)
 		if err != nil {
 			w.Fail("c08/SignRaw:err", fmt.Sprintf("SignRaw failed for an admissible digest: %v", err), det...)
